@@ -32,7 +32,8 @@
   The generic store vocabulary (`sortBy`, `importVals`, `exportVals`, `ltNat`) is the one of
   Model/Genesis (C18): `periodLocks` / `storeLocks` are C18's `Genesis.periodLocks` /
   `Genesis.importLockup` over M-Lockup's lock record (which adds what C18 abstracts away: the
-  accumulation store and the parameters' effect on later messages).
+  accumulation store and the parameters' effect on later messages); `Props/C14Chain`
+  `restart_is_c18_import_export` proves the two agree under the encoding `embLock`, for every state.
 -/
 import DymVerif.Model.Lockup
 import DymVerif.Model.Genesis
